@@ -74,3 +74,34 @@ Print Assumptions C18_K2_split_refuted.
 Example C18_nonvacuous :
   len (enc [0; 1; 255]) < 256 /\ lex_lt (nuk [0] [1; 0]) (nuk [] [1; 0; 0]) /\ (7 + 7) / 8 <= len [255; 255].
 Proof. split; [vm_compute; reflexivity|split; [apply bytes_ltb_spec; vm_compute; reflexivity|vm_compute; discriminate]]. Qed.
+
+(* ---- IP-prefix keys (index/netip.go NetIPPrefix, lpm/key.go NetIPPrefixToIndexKey; KeyEnc/NetIP.v) ---- *)
+From SV Require KeyEnc.NetIP.
+Module C18_NetIP.
+Import SV.Base.Bytes SV.KeyEnc.Model SV.KeyEnc.NetIP.
+Open Scope N_scope.
+
+(* equal keys exactly for equal masked prefixes of a family: different values give different keys, and the key
+   of a prefix is the key of its masked form (equal values give equal keys) *)
+Theorem C18_netip_prefix_key_injective : forall (is4 : bool) (a1 : bytes) (b1 : N) (a2 : bytes) (b2 : N),
+  netip_prefix_key is4 a1 b1 = netip_prefix_key is4 a2 b2 <-> (mask_bytes a1 b1 = mask_bytes a2 b2 /\ b1 = b2).
+Proof. exact netip_prefix_key_inj. Qed.
+Print Assumptions C18_netip_prefix_key_injective.
+
+Theorem C18_netip_prefix_key_canonical : forall (is4 : bool) (addr : bytes) (bits : N),
+  netip_prefix_key is4 (mask_bytes addr bits) bits = netip_prefix_key is4 addr bits.
+Proof. exact netip_prefix_key_canonical. Qed.
+Print Assumptions C18_netip_prefix_key_canonical.
+
+(* an IPv4 prefix and an IPv6 prefix never share a key; every key has 17 bytes *)
+Theorem C18_netip_prefix_key_families_disjoint : forall (a4 : bytes) (b4 : N) (a6 : bytes) (b6 : N),
+  length a4 = 4%nat -> length a6 = 16%nat -> b4 <= 32 -> b6 <= 128 ->
+  netip_prefix_key true a4 b4 <> netip_prefix_key false a6 b6.
+Proof. exact netip_prefix_key_families_disjoint. Qed.
+Print Assumptions C18_netip_prefix_key_families_disjoint.
+
+Theorem C18_netip_prefix_key_length : forall (is4 : bool) (addr : bytes) (bits : N),
+  length addr = (if is4 then 4 else 16)%nat -> length (netip_prefix_key is4 addr bits) = 17%nat.
+Proof. exact netip_prefix_key_length. Qed.
+Print Assumptions C18_netip_prefix_key_length.
+End C18_NetIP.
